@@ -6,7 +6,7 @@ use serde_json::json;
 use super::common::{diff_class, Driver};
 use crate::gen::Profile;
 use crate::ops::{Op, Outcome, Snapshot, ALL_POLICIES};
-use crate::runner::{Acc, Ctx, Monitor, Tier};
+use crate::runner::{Acc, Ctx, Monitor, Tier, REAL_BASE};
 use crate::util::Rng;
 
 pub struct C01;
@@ -21,8 +21,12 @@ impl Monitor for C01 {
     fn num_cases(&self, tier: Tier) -> u64 {
         tier.pick(640, 24_000)
     }
+    fn num_realsize_cases(&self, tier: Tier) -> u64 {
+        tier.pick(0, 12)
+    }
     fn floors(&self, tier: Tier) -> Vec<(&'static str, u64)> {
         vec![
+            ("realsize_restarts_after_2_genuine_rollovers", tier.pick(0, 6)),
             ("restarts_checked", tier.pick(1000, 20_000)),
             ("restarts_after_gc_unlink", tier.pick(50, 1000)),
             ("restarts_with_empty_queue_at_nonzero_position", tier.pick(20, 400)),
@@ -49,8 +53,10 @@ impl Monitor for C01 {
             Profile::Huge, Profile::Dense, Profile::Align,
         ]);
         let policy = *rng.pick(&ALL_POLICIES);
-        let nq = rng.usize(1, 6);
-        let nops = rng.usize(40, 150);
+        let real = case >= REAL_BASE;
+        let profile = if real { Profile::Gc } else { profile };
+        let nq = if real { rng.usize(1, 3) } else { rng.usize(1, 6) };
+        let nops = if real { rng.usize(30, 50) } else { rng.usize(40, 150) };
         let dir = ctx.scratch.sub("c01");
         let key = parts[2] ^ parts[1].rotate_left(32);
         let mut d = match Driver::start(&dir, policy, key, &parts, profile, nq) {
@@ -119,6 +125,13 @@ impl Monitor for C01 {
                         }
                         if files_before.len() >= 2 {
                             acc.count("restarts_with_multi_file_wal");
+                        }
+                        if real {
+                            acc.count("realsize_restarts");
+                            acc.max("max_realsize_file_bytes", files_before.iter().map(|f| f.1).max().unwrap_or(0));
+                            if files_before.last().map(|f| f.0).unwrap_or(0) >= 2 {
+                                acc.count("realsize_restarts_after_2_genuine_rollovers");
+                            }
                         }
                         acc.max("max_wal_files_at_restart", files_before.len() as u64);
                         acc.max("max_queues_at_restart", before.queues.len() as u64);
